@@ -155,6 +155,7 @@ def build(body: Body, alpha: Alphabet, fx=None, depth=0, _prefix=(), _sinks=None
         n.entry = node(0, 0)
     # a spliced callee whose result is written straight into the caller's return place produces the caller's result
     retval = alpha.retval and (top or _retval)
+    vsets, vtsts = _value_tests(body)
     for bi, blk in enumerate(body.blocks):
         if blk["c"]:
             continue
@@ -162,8 +163,14 @@ def build(body: Body, alpha: Alphabet, fx=None, depth=0, _prefix=(), _sinks=None
         cur = node(bi, 0)
         n.nodes.add(cur)
         # statement events
-        if retval or alpha.stmt_fn or not top:
+        if retval or alpha.stmt_fn or not top or vsets:
             for si, st in enumerate(blk["s"]):
+                for vl in vsets.get((bi, si), ()):
+                    nxt = node(bi, pos + 1)
+                    n.add(cur, vl, nxt, st.get("l"))
+                    n.has_corr = True
+                    cur = nxt
+                    pos += 1
                 lab = None
                 if not top and st["k"] == "assign" and st["p"] == [0]:
                     # a spliced callee says which variant it hands back: the caller's match on that value follows suit
@@ -220,6 +227,8 @@ def build(body: Body, alpha: Alphabet, fx=None, depth=0, _prefix=(), _sinks=None
         elif k == "switch":
             labels = switch_labels(body, bi, t, alpha)
             corr = _corr_labels(fx, body, t) if (fx is not None and depth > 0) else {}
+            if not corr and bi in vtsts:
+                corr = vtsts[bi]
             ready = None
             if fx is not None and depth > 0:
                 ready = _poll_ready(body, t)
@@ -283,6 +292,97 @@ def _local_sync_callee(fx, t):
         if f is not None and f["kind"] in ("fn", "assoc_fn") and not f.get("is_async") and "pre" in f:
             return f
     return None
+
+
+_PRED_TRUE = {"is_break": "Break", "is_continue": "Continue", "is_some": "Some", "is_none": "None", "is_ok": "Ok", "is_err": "Err"}
+_VARIANTS = {"Break": ("Break", "Continue"), "Continue": ("Break", "Continue"), "Some": ("Some", "None"), "None": ("Some", "None"), "Ok": ("Ok", "Err"), "Err": ("Ok", "Err")}
+
+
+def _value_tests(body):
+    """flag variables: a switch that tests a local whose every definition is a literal enum variant or bool constant
+    (`let flow = select! { .. => ControlFlow::Break(()), .. => ControlFlow::Continue(()) }; if flow.is_break() { break }`).
+    Returns ({(bb, stmt): [vset labels]}, {switch bb: {switch value: vtst label}}): the definitions announce the value,
+    the switch edges are followed only when they agree with the value last announced on that path."""
+    cache = body.__dict__.get("_vt_cache")
+    if cache is not None:
+        return cache
+    vsets, vtsts = {}, {}
+    for bi, blk in enumerate(body.blocks):
+        t = blk["t"]
+        if blk["c"] or t["k"] != "switch" or t["o"]["k"] not in ("copy", "move"):
+            continue
+        origs = body.origins(t["o"]["p"], through_calls=False)
+        tested = None      # place whose value is tested
+        table = None       # switch value -> set of variants / constants it stands for
+        if origs and all(x.kind == "discr" for x in origs) and len(origs) == 1:
+            st = body.blocks[next(iter(origs)).site[0]]["s"][next(iter(origs)).site[1]]
+            r = st["r"]
+            if len(r.get("p", [])) == 1:
+                tested = r["p"]
+                variants = r.get("variants", {})
+                table = {val: {variants.get(val)} for (val, _b) in t["targets"] if variants.get(val)}
+                rest = set(variants.values()) - {v for s_ in table.values() for v in s_}
+                table["otherwise"] = rest
+        elif t.get("oty") == "bool" and origs and len(origs) == 1 and next(iter(origs)).kind == "call":
+            ct = body.call_at(next(iter(origs)))
+            name = (ct.get("callee") or "").split("::")[-1]
+            if name in _PRED_TRUE and len(ct["args"]) == 1 and ct["args"][0].get("k") in ("copy", "move"):
+                # the argument is `&local`
+                ap = ct["args"][0]["p"]
+                for (_b2, _s2, st2) in body.assigns.get(ap[0], []) if len(ap) == 1 else []:
+                    if st2["r"]["k"] == "ref" and len(st2["r"]["p"]) == 1:
+                        tested = st2["r"]["p"]
+                if tested is not None:
+                    tv = _PRED_TRUE[name]
+                    other = [v for v in _VARIANTS[tv] if v != tv]
+                    table = {}
+                    for (val, _b) in t["targets"]:
+                        table[val] = {tv} if int(val) != 0 else set(other)
+                    vals = {int(v) != 0 for (v, _) in t["targets"]}
+                    if len(vals) == 1:
+                        table["otherwise"] = set(other) if next(iter(vals)) else {tv}
+        elif t.get("oty") == "bool" and len(t["o"]["p"]) == 1:
+            tested = t["o"]["p"]
+            table = {}
+            for (val, _b) in t["targets"]:
+                table[val] = {"true" if int(val) != 0 else "false"}
+            vals = {int(v) != 0 for (v, _) in t["targets"]}
+            if len(vals) == 1:
+                table["otherwise"] = {"false"} if next(iter(vals)) else {"true"}
+        if tested is None or not table:
+            continue
+        defs = body.origins(tested, through_calls=False)
+        sites = {}
+        ok = len(defs) >= 2
+        for d in defs:
+            if d.kind == "agg" and not d.proj:
+                st = body.blocks[d.site[0]]["s"][d.site[1]]
+                v = st["r"].get("variant")
+                if st["r"].get("ak") == "adt" and v:
+                    sites[d.site] = v
+                    continue
+            ok = False
+            break
+        if not ok:
+            # bool constants assigned directly
+            sites = {}
+            ok = len(defs) >= 2 and all(d.kind == "const" and str(d.site) in ("true", "false") for d in defs)
+            if ok:
+                for l_defs in [body.assigns.get(tested[0], [])]:
+                    for (b3, s3, st3) in l_defs:
+                        o3 = st3["r"].get("o", {})
+                        if st3["r"]["k"] == "use" and o3.get("k") == "const" and str(o3.get("v")) in ("true", "false"):
+                            sites[(b3, s3)] = str(o3.get("v"))
+                        else:
+                            ok = False
+        if not ok or len(sites) < 2:
+            continue
+        vid = "%s#%d" % (body.name, bi)
+        for site, v in sites.items():
+            vsets.setdefault(tuple(site), []).append("vset:%s|%s" % (vid, v))
+        vtsts[bi] = {val: "vtst:%s|{%s}" % (vid, ",".join(sorted(x for x in vs if x))) for val, vs in table.items()}
+    body.__dict__["_vt_cache"] = (vsets, vtsts)
+    return vsets, vtsts
 
 
 def _corr_labels(fx, body, t):
@@ -584,6 +684,15 @@ class _Correlated(Spec):
         if label.startswith("iret:"):
             callee, v = label[5:].rsplit("|", 1)
             return (ist, tuple(sorted(dict(corr, **{callee: v}).items())))
+        if label.startswith("vset:"):
+            vid, v = label[5:].rsplit("|", 1)
+            return (ist, tuple(sorted(dict(corr, **{vid: v}).items())))
+        if label.startswith("vtst:"):
+            vid, v = label[5:].rsplit("|", 1)
+            have = dict(corr).get(vid)
+            if have is not None and have not in v[1:-1].split(","):
+                return _INFEASIBLE
+            return st
         if label.startswith("isw:"):
             callee, v = label[4:].rsplit("|", 1)
             have = dict(corr).get(callee)
